@@ -22,8 +22,8 @@ instance of the definition at n (and, through the nested application, at n-1 and
 SIG = {
     # ---- primitives -----------------------------------------------------------------------------------------------
     'hlen': {'sort': 'int', 'uf': True,
-             'facts': ['result >= 1', 'alg == 160 ==> result == 20', 'alg == 256 ==> result == 32',
-                       'alg == 384 ==> result == 48', 'alg == 512 ==> result == 64']},
+             'facts': ['result >= 1',
+                       'result == ite(alg == 160, 20, ite(alg == 256, 32, ite(alg == 384, 48, ite(alg == 512, 64, result))))']},
     'HMAC': {'sort': 'bytes', 'uf': True, 'facts': ['len(result) == hlen(alg)']},
     'PRF': {'sort': 'bytes', 'uf': True},
     'H': {'sort': 'bytes', 'uf': True, 'facts': ['len(result) == hlen(alg)']},
